@@ -6,7 +6,7 @@ decide element ids). Oracle: structural well-formedness against the dataset mode
 """
 from .. import gen, model
 from ..lib import (build_dataset, build_scheme, uses_random, alg_label, jsonable_ranking, canon_ranking,
-                   canon_rankings, call, Element)
+                   canon_rankings, call, Element, build_alg)
 from ..seed import digest
 from .common import Discard, run_alg, well_formed, dataset_tags, sweep
 
@@ -49,7 +49,14 @@ def gen_case(st, tier, env):
         calls.insert(at, {"mutate": w.choice(["remove_elements", "remove_elements", "remove_rate", "remove_empty"]),
                           "pick": [w.randrange(64) for _ in range(w.randint(1, 2))],
                           "rate": w.choice([0.3, 0.5, 0.75])})
-    return {"dataset": ds, "scheme": scheme, "calls": calls, "sweep": do_sweep}
+    case = {"dataset": ds, "scheme": scheme, "calls": calls, "sweep": do_sweep}
+    if k.random() < 0.3 and not do_sweep:
+        # the same algorithm instances also serve a second dataset over another universe in between
+        case["dataset2"] = gen.gen_dataset(w, n_max=5, m_max=4)
+        for c in calls:
+            if "alg" in c and w.random() < 0.4:
+                c["ds"] = 1
+    return case
 
 
 def nontrivial(probes):
@@ -62,6 +69,13 @@ def run_case(case, ctx):
     ds = build_dataset(case["dataset"])
     sc = build_scheme(case["scheme"])
     ctx.event("world", model.canon(mr), case["scheme"]["B"], case["scheme"]["T"], ctx.env)
+    ds2 = mr2 = tags2 = None
+    if case.get("dataset2"):
+        ds2 = build_dataset(case["dataset2"])
+        mr2 = model.normalise(case["dataset2"]["rankings"])
+        tags2 = dict(dataset_tags(mr2, case["scheme"]), second_dataset=True)
+    instances = {}
+    cur = {"mr": None, "tags": None}
 
     def judge(out, call_spec, sched_spec):
         # (mr and tags are rebound by in-place mutations below; judge reads the current bindings)
@@ -76,9 +90,11 @@ def run_case(case, ctx):
         if out.picks:
             ctx.schedules.add(digest([case["dataset"]["rankings"], out.label, out.picks]))
         one = call_spec["one"]
+        mr_j = cur["mr"] if cur["mr"] is not None else mr
+        tags_j = cur["tags"] if cur["tags"] is not None else tags
         # default of return_at_most_one_ranking differs per class; when not given, only ">= 1" is demanded
-        for b in well_formed(out.cons, mr, one is True):
-            t = dict(tags, alg=out.label.split("(")[0], env=ctx.env, what=b["what"])
+        for b in well_formed(out.cons, mr_j, one is True):
+            t = dict(tags_j, alg=out.label.split("(")[0], env=ctx.env, what=b["what"])
             ctx.violate("C03/" + b["what"], b["observed"], b["expected"], t, out.label)
             ctx.violations[-1]["case_override"] = dict(
                 case, sweep=False, calls=[dict(call_spec, sched={"draws": out.picks, "fallback": "first", "seed": 0})])
@@ -118,6 +134,18 @@ def run_case(case, ctx):
                 ctx.probe("sweep_leaves", n)
                 ctx.probe("schedule_trees_swept")
             else:
-                judge(run_alg(c["alg"], ds, sc, c["one"], c["sched"]), c, c["sched"])
+                lab = alg_label(c["alg"])
+                if lab not in instances:
+                    okb, inst = call(build_alg, c["alg"])
+                    instances[lab] = inst if okb else None
+                if instances[lab] is None:
+                    continue
+                if c.get("ds") and ds2 is not None:
+                    cur["mr"], cur["tags"] = mr2, tags2
+                    ctx.probe("second_dataset_call")
+                    judge(run_alg(c["alg"], ds2, sc, c["one"], c["sched"], alg=instances[lab]), c, c["sched"])
+                    cur["mr"], cur["tags"] = None, None
+                else:
+                    judge(run_alg(c["alg"], ds, sc, c["one"], c["sched"], alg=instances[lab]), c, c["sched"])
         except Discard:
             ctx.probe("discarded_stub_capacity")
